@@ -12,7 +12,8 @@ ANCHORS = ['bip32:PubKeyNode.ckd', 'bip32:PubKeyNode.derive_path', 'bip32:PubKey
 RULE = ("seeded generator over public parents (from scalar classes incl. x-coordinates with leading zero bytes, both "
         "parities), chain-code classes, depth 0..254, construction form (ctor / parsed from xpub string, bytes, stream) and "
         "index classes in [0,2^31) for derivation, [2^31,2^32) for refusal; paired private/public walks of length 0..10; "
-        "distinct = distinct (monitor, exact case) digests; every case recomputes CKDpub independently")
+        "distinct = distinct (monitor, exact case) digests; every case recomputes CKDpub independently"
+        " EXTENSIONS: + colliding 4-byte fingerprints (committed corpus), refusal through path TEXT with decorated hardened markers and through descending / straddling intervals, path shapes, stream forms")
 LEVEL_TEXT = ("Every PubKeyNode.ckd execution on public-only nodes is adjudicated by an independent CKDpub model and, in "
               "paired walks, against the private derivation step by step (keys, chain codes, fingerprints, metadata, printed "
               "xpubs). Hardened indexes must raise and leave no child behind. Held on K executions over boundary classes + "
@@ -132,6 +133,11 @@ def judge_refuse(ctx, case):
             w = BaseWallet.from_extended_key(pub.xpub(rb32.version_for("pub", case["testnet"], case.get("vpurpose", 44))))
             comps = [str(c) for c in case["prefix"]] + [case["spelling"] % (i - H)]
             r = w.by_path(case.get("root", "M") + "/" + "/".join(comps))
+        elif via == "generate_children_descending":
+            # the interval is handed to range(): a third element (a step) has always been honoured - a listing that walks DOWN
+            # from a hardened index into the normal range asks for hardened children as well
+            r = node.generate_children(interval=(i, H - case.get("below", 1) - 1, -case.get("step", 1)))
+            r = "list of %d nodes" % len(r)
         elif via == "generate_children_straddle":
             r = node.generate_children(interval=(H - case.get("below", 1), i + 1))
             r = "list of %d nodes" % len(r)
@@ -384,6 +390,11 @@ def run(ctx):
             if case["via"] == "generate_children_straddle":
                 case["index"] = H + rnd.randrange(0, 3)
                 case["below"] = rnd.randrange(1, 4)
+            if rnd.random() < 0.12:
+                case["via"] = "generate_children_descending"
+                case["index"] = H + rnd.randrange(0, 4)
+                case["below"] = rnd.randrange(1, 4)
+                case["step"] = rnd.choice([1, 1, 2, 3])
             if case["via"] == "derive_path":
                 L = rnd.randrange(0, 3)
                 case["depth"] = min(case["depth"], 250)
